@@ -116,6 +116,34 @@ vf::Outcome run_case(const vf::Case& c, const vf::RunCtx& ctx) {
     const Scalar ip = T.inner(U);
     Scalar ip_sum = Scalar(0);
 
+    // the same Jacobians requested one at a time (outputs again pre-filled with NaN): identical bits, in particular
+    // exact zeros outside the diagonal blocks whichever other output is requested
+    {
+      using Opt = typename GroupT::OptJacobianRef;
+      auto same = [&](const Jac& a, const Jac& b) { return std::memcmp(a.data(), b.data(), sizeof(Scalar) * a.size()) == 0; };
+      auto single = [&](const char* name, const Jac& both_a, const Jac& both_b, auto call) {
+        Jac oa = nanJ(), ob = nanJ();
+        call(Opt(oa), Opt{});
+        call(Opt{}, Opt(ob));
+        k.require(std::string("single-output:") + name + "/first", same(oa, both_a), std::string(name) + ": first Jacobian differs (or is not fully written) when requested alone");
+        k.require(std::string("single-output:") + name + "/second", same(ob, both_b), std::string(name) + ": second Jacobian differs (or is not fully written) when requested alone");
+      };
+      single("compose", Jca, Jcb, [&](Opt a, Opt b) { X.compose(Y, a, b); });
+      single("between", Jba, Jbb, [&](Opt a, Opt b) { X.between(Y, a, b); });
+      single("rplus", Jrpm, Jrpt, [&](Opt a, Opt b) { X.rplus(T, a, b); });
+      single("lplus", Jlpm, Jlpt, [&](Opt a, Opt b) { X.lplus(T, a, b); });
+      single("rminus", Jrma, Jrmb, [&](Opt a, Opt b) { X.rminus(Y, a, b); });
+      single("lminus", Jlma, Jlmb, [&](Opt a, Opt b) { X.lminus(Y, a, b); });
+      {
+        Eigen::Matrix<Scalar, GroupT::Dim, GroupT::DoF> m1; m1.setConstant(std::numeric_limits<Scalar>::quiet_NaN());
+        Eigen::Matrix<Scalar, GroupT::Dim, GroupT::Dim> v1; v1.setConstant(std::numeric_limits<Scalar>::quiet_NaN());
+        X.act(pt, m1, tl::optional<Eigen::Ref<Eigen::Matrix<Scalar, GroupT::Dim, GroupT::Dim>>>{});
+        X.act(pt, tl::optional<Eigen::Ref<Eigen::Matrix<Scalar, GroupT::Dim, GroupT::DoF>>>{}, v1);
+        k.require("single-output:act/m", std::memcmp(m1.data(), Jam.data(), sizeof(Scalar) * m1.size()) == 0, "act: J_m differs when requested alone");
+        k.require("single-output:act/v", std::memcmp(v1.data(), Jav.data(), sizeof(Scalar) * v1.size()) == 0, "act: J_v differs when requested alone");
+      }
+    }
+
     // block-diagonal structure with exact zeros elsewhere
     const std::pair<const char*, const Jac*> jacs[] = {
         {"inverse", &Jinv}, {"log", &Jlog}, {"exp", &Jexp}, {"compose/a", &Jca}, {"compose/b", &Jcb}, {"between/a", &Jba}, {"between/b", &Jbb},
